@@ -1,14 +1,874 @@
-//! C13 — stub, to be implemented.
-#![allow(dead_code)]
+//! C13 — backends see the client's request plus truthful, unspoofable proxy metadata
+//! (HTTP/1.1 front, HTTP/1.1 back tier).
+//!
+//! Plan: >=2 keep-alive clients with different simulated addresses (IPv4 and IPv6, direct or behind
+//! PROXY-v2), exact request bytes (`ReqSpec.raw`) built from a structured header list, exact
+//! response bytes, listener knobs (`elide_x_real_ip`, `send_x_real_ip`, `sozu_id_header`,
+//! `sticky_name`, `public_address`, `expect_proxy`), cluster `sticky_session`, per-frontend header
+//! edits. The listener/cluster/frontend options are applied by rewriting the configuration
+//! requests inside a caller-supplied master script (no shared file changes).
+//!
+//! Oracle: `c13_model` (an independent reference model written from the property statement,
+//! doc/configure.md and RFC 9110/7239 — it never calls sozu code).
+use std::collections::BTreeMap;
+use std::net::SocketAddr;
+
+use serde::{Deserialize, Serialize};
 use serde_json::Value;
+use sozu_command_lib::proto::command::{request::RequestType, Header, Request};
+
+use crate::actors::h1::*;
+use crate::actors::master::{MOp, Master};
+use crate::actors::{gen_body, Pace};
 use crate::framework::*;
+use crate::netsim::{self, Knobs};
+use crate::prng::{Prng, TraceHash};
+use crate::scenario::*;
+use crate::world::MS;
+
+#[path = "c13_model.rs"]
+pub mod c13_model;
+use c13_model::{self as model, Truth};
 
 pub struct C13;
 
+pub const DEFAULT_STICKY: &str = "SOZUBALANCEID";
+pub const DEFAULT_CORR: &str = "Sozu-Id";
+
+#[derive(Clone, Debug, Serialize, Deserialize, PartialEq)]
+pub struct Edit {
+    /// 1 request, 2 response, 3 both
+    pub pos: u8,
+    pub key: String,
+    pub val: String,
+}
+
+#[derive(Clone, Debug, Default, Serialize, Deserialize, PartialEq)]
+pub struct Opts {
+    pub elide_x_real_ip: bool,
+    pub send_x_real_ip: bool,
+    pub sozu_id_header: Option<String>,
+    pub sticky_name: Option<String>,
+    pub public_address: Option<SocketAddr>,
+    pub expect_proxy: bool,
+    /// per cluster: `sticky_session`
+    pub sticky: Vec<bool>,
+    /// per cluster: header edits of its frontend
+    pub edits: Vec<Vec<Edit>>,
+}
+impl Opts {
+    pub fn sticky_name(&self) -> &str { self.sticky_name.as_deref().unwrap_or(DEFAULT_STICKY) }
+    pub fn corr(&self) -> &str { self.sozu_id_header.as_deref().unwrap_or(DEFAULT_CORR) }
+}
+
+/// (name, value, whitespace variant): 0 `n: v`, 1 `n:v`, 2 `n:  v`, 3 `n:\tv`, 4 `n: v `, 5 `n: v\t`
+pub type Hdr = (String, String, u8);
+
+#[derive(Clone, Debug, Serialize, Deserialize)]
+pub struct CReq {
+    pub id: u64,
+    pub method: String,
+    pub path: String,
+    pub cluster: usize,
+    /// the complete header section in wire order (Host, x-sim-id and framing included)
+    pub headers: Vec<Hdr>,
+    pub body: usize,
+    /// chunk sizes when the request is chunked
+    pub chunks: Option<Vec<usize>>,
+    pub trailers: Vec<(String, String)>,
+}
+
+#[derive(Clone, Debug, Serialize, Deserialize)]
+pub struct CResp {
+    pub status: u16,
+    /// complete header section in wire order
+    pub headers: Vec<(String, String)>,
+    pub body: usize,
+    pub chunks: Option<Vec<usize>>,
+}
+
+#[derive(Clone, Debug, Serialize, Deserialize)]
+pub struct CClient {
+    /// address the proxy must report: the socket peer, or the PROXY-v2 source when `expect_proxy`
+    pub truth: SocketAddr,
+    /// PROXY-v2 destination (only with `expect_proxy`)
+    pub proxy_dst: Option<SocketAddr>,
+    pub reqs: Vec<CReq>,
+}
+
+#[derive(Clone, Debug, Serialize, Deserialize)]
+pub struct Plan {
+    /// topology, pacing and scheduling; `clients[i].requests` and backend `responses` are filled by `build`
+    pub http: HttpPlan,
+    pub opts: Opts,
+    pub clients: Vec<CClient>,
+    pub resps: BTreeMap<u64, CResp>,
+}
+
+// ------------------------------------------------------------------------------------ rendering
+
+fn render_hdr(out: &mut Vec<u8>, h: &Hdr) {
+    out.extend_from_slice(h.0.as_bytes());
+    let (pre, post): (&str, &str) = match h.2 { 1 => (":", ""), 2 => (":  ", ""), 3 => (":\t", ""), 4 => (": ", " "), 5 => (": ", "\t"), _ => (": ", "") };
+    out.extend_from_slice(pre.as_bytes());
+    out.extend_from_slice(h.1.as_bytes());
+    // trailing whitespace after an empty value would be indistinguishable from leading whitespace
+    if !h.1.is_empty() { out.extend_from_slice(post.as_bytes()); }
+    out.extend_from_slice(b"\r\n");
+}
+
+fn render_body(out: &mut Vec<u8>, key: u64, len: usize, chunks: &Option<Vec<usize>>, trailers: &[(String, String)]) {
+    let body = gen_body(key, len);
+    match chunks {
+        None => out.extend_from_slice(&body),
+        Some(sizes) => {
+            let mut off = 0;
+            for s in sizes {
+                if *s == 0 { continue; }
+                out.extend_from_slice(format!("{s:x}\r\n").as_bytes());
+                out.extend_from_slice(&body[off..off + s]);
+                out.extend_from_slice(b"\r\n");
+                off += s;
+            }
+            out.extend_from_slice(b"0\r\n");
+            for (n, v) in trailers { out.extend_from_slice(format!("{n}: {v}\r\n").as_bytes()); }
+            out.extend_from_slice(b"\r\n");
+        }
+    }
+}
+
+pub fn render_req(r: &CReq) -> Vec<u8> {
+    let mut out = format!("{} {} HTTP/1.1\r\n", r.method, r.path).into_bytes();
+    for h in &r.headers { render_hdr(&mut out, h); }
+    out.extend_from_slice(b"\r\n");
+    render_body(&mut out, r.id * 2, r.body, &r.chunks, &r.trailers);
+    out
+}
+
+pub fn render_resp(id: u64, r: &CResp) -> Vec<u8> {
+    let reason = match r.status { 200 => "OK", 201 => "Created", 204 => "No Content", 304 => "Not Modified", 404 => "Not Found", 500 => "Internal Server Error", _ => "Status" };
+    let mut out = format!("HTTP/1.1 {} {}\r\n", r.status, reason).into_bytes();
+    for (n, v) in &r.headers { out.extend_from_slice(format!("{n}: {v}\r\n").as_bytes()); }
+    out.extend_from_slice(b"\r\n");
+    if r.status != 204 && r.status != 304 { render_body(&mut out, id * 2 + 1, r.body, &r.chunks, &[]); }
+    out
+}
+
+/// PROXY protocol v2 header, PROXY command, TCP over IPv4/IPv6, no TLV.
+pub fn proxy_v2(src: &SocketAddr, dst: &SocketAddr) -> Vec<u8> {
+    let mut v = b"\r\n\r\n\0\r\nQUIT\n".to_vec();
+    v.push(0x21);
+    match (src, dst) {
+        (SocketAddr::V4(s), SocketAddr::V4(d)) => {
+            v.push(0x11);
+            v.extend_from_slice(&12u16.to_be_bytes());
+            v.extend_from_slice(&s.ip().octets());
+            v.extend_from_slice(&d.ip().octets());
+            v.extend_from_slice(&s.port().to_be_bytes());
+            v.extend_from_slice(&d.port().to_be_bytes());
+        }
+        (SocketAddr::V6(s), SocketAddr::V6(d)) => {
+            v.push(0x21);
+            v.extend_from_slice(&36u16.to_be_bytes());
+            v.extend_from_slice(&s.ip().octets());
+            v.extend_from_slice(&d.ip().octets());
+            v.extend_from_slice(&s.port().to_be_bytes());
+            v.extend_from_slice(&d.port().to_be_bytes());
+        }
+        _ => panic!("PROXY v2 source and destination must be of the same family"),
+    }
+    v
+}
+
+pub fn sticky_id(cluster: usize, backend: usize) -> String { format!("sid-{cluster}-{backend}") }
+
+/// Fill the exact request / response bytes into the HTTP scenario.
+pub fn build(p: &Plan) -> HttpPlan {
+    let mut h = p.http.clone();
+    for (i, c) in p.clients.iter().enumerate() {
+        h.clients[i].requests = c.reqs.iter().enumerate().map(|(k, r)| {
+            let mut raw = Vec::new();
+            if k == 0 && p.opts.expect_proxy {
+                if let Some(d) = &c.proxy_dst { raw.extend_from_slice(&proxy_v2(&c.truth, d)); }
+            }
+            raw.extend_from_slice(&render_req(r));
+            ReqSpec { id: r.id, method: r.method.clone(), host: format!("c{}.test", r.cluster), path: r.path.clone(), headers: vec![], body: BodySpec::None, raw: Some(raw) }
+        }).collect();
+    }
+    for (ci, cl) in h.clusters.iter_mut().enumerate() {
+        let mut m = BTreeMap::new();
+        for c in &p.clients {
+            for r in &c.reqs {
+                if r.cluster != ci { continue; }
+                if let Some(resp) = p.resps.get(&r.id) {
+                    let mut spec = RespSpec::ok(BodySpec::None);
+                    spec.status = resp.status;
+                    spec.raw = Some(render_resp(r.id, resp));
+                    m.insert(r.id, spec);
+                }
+            }
+        }
+        for (b, _) in cl.backends.iter_mut() { b.responses = m.clone(); }
+    }
+    h
+}
+
+/// Apply the listener / cluster / backend / frontend options to the configuration requests.
+fn configure(reqs: Vec<Request>, o: &Opts) -> Vec<Request> {
+    let idx = |cluster_id: &str| -> usize { cluster_id.trim_start_matches('c').parse().unwrap_or(0) };
+    reqs.into_iter().map(|r| {
+        let rt = match r.request_type {
+            Some(RequestType::AddHttpListener(mut l)) => {
+                l.elide_x_real_ip = Some(o.elide_x_real_ip);
+                l.send_x_real_ip = Some(o.send_x_real_ip);
+                if let Some(n) = &o.sozu_id_header { l.sozu_id_header = Some(n.clone()); }
+                if let Some(n) = &o.sticky_name { l.sticky_name = n.clone(); }
+                if let Some(a) = o.public_address { l.public_address = Some(a.into()); }
+                l.expect_proxy = o.expect_proxy;
+                Some(RequestType::AddHttpListener(l))
+            }
+            Some(RequestType::AddCluster(mut c)) => {
+                c.sticky_session = o.sticky.get(idx(&c.cluster_id)).copied().unwrap_or(false);
+                Some(RequestType::AddCluster(c))
+            }
+            Some(RequestType::AddBackend(mut b)) => {
+                let bi: usize = b.backend_id.rsplit('-').next().and_then(|s| s.parse().ok()).unwrap_or(0);
+                b.sticky_id = Some(sticky_id(idx(&b.cluster_id), bi));
+                Some(RequestType::AddBackend(b))
+            }
+            Some(RequestType::AddHttpFrontend(mut f)) => {
+                if let Some(cid) = &f.cluster_id {
+                    for e in o.edits.get(idx(cid)).map(|v| v.as_slice()).unwrap_or(&[]) {
+                        f.headers.push(Header { position: e.pos as i32, key: e.key.clone(), val: e.val.clone() });
+                    }
+                }
+                Some(RequestType::AddHttpFrontend(f))
+            }
+            other => other,
+        };
+        Request { request_type: rt }
+    }).collect()
+}
+
+pub fn run(p: &Plan, log: bool) -> (HttpPlan, HttpOutcome) {
+    let h = build(p);
+    let opts = p.opts.clone();
+    let script: MasterScript = Box::new(move |m: &mut Master, reqs: Vec<Request>, nclients: i64| {
+        m.send_all(configure(reqs, &opts));
+        m.push(MOp::Barrier);
+        m.push(MOp::SetBoard("configured".into(), 1));
+        m.push(MOp::WaitBoard("clients_done".into(), nclients));
+        m.push(MOp::HardStop);
+    });
+    let o = run_http_script(&h, log, Some(script));
+    (h, o)
+}
+
+// ------------------------------------------------------------------------------------ generator
+
+const SPOOF4: &[&str] = &["6.6.6.1", "6.6.6.2", "6.6.6.3", "6.6.6.4"];
+const SPOOF6: &[&str] = &["2001:db8:bad::1", "2001:db8:bad::2"];
+
+fn spoof_ip(rng: &mut Prng) -> String {
+    if rng.below(3) == 0 { rng.pick(SPOOF6).to_string() } else { rng.pick(SPOOF4).to_string() }
+}
+fn case_variant(rng: &mut Prng, name: &str) -> String {
+    match rng.below(4) { 0 => name.to_ascii_lowercase(), 1 => name.to_ascii_uppercase(), _ => name.to_string() }
+}
+fn ows(rng: &mut Prng) -> u8 { if rng.below(5) == 0 { 1 + rng.below(5) as u8 } else { 0 } }
+
+fn ordinary_value(rng: &mut Prng, id: u64, k: &mut u32) -> String {
+    *k += 1;
+    let m = format!("q{id}-{k}");
+    match rng.below(12) {
+        0 => format!("{m}, {m}b"),
+        1 => format!("{m} b  c"),
+        2 => format!("\"{m}\";x=1"),
+        3 => format!("{m}{}", "y".repeat(300)),
+        4 => format!("{m}=v=w"),
+        5 if rng.below(3) == 0 => String::new(),
+        _ => m,
+    }
+}
+
+#[allow(clippy::too_many_arguments)]
+fn gen_request(rng: &mut Prng, id: u64, cluster: usize, o: &Opts, nback: usize, cats: &[u8], last_of_sequential: bool, max_body: usize) -> CReq {
+    let mut k = 0u32;
+    let mut hs: Vec<Hdr> = Vec::new();
+    let n_items = rng.below(6) as usize;
+    for _ in 0..n_items {
+        match *rng.pick(cats) {
+            0 => {
+                let n = *rng.pick(&["X-App", "x-app", "Accept", "X-Tag", "User-Agent", "Accept-Language", "X-Edit"]);
+                hs.push((n.to_string(), ordinary_value(rng, id, &mut k), ows(rng)));
+            }
+            1 => {
+                let base = *rng.pick(&["X-App", "X-Tag", "Accept"]);
+                for _ in 0..2 + rng.below(2) { hs.push((case_variant(rng, base), ordinary_value(rng, id, &mut k), ows(rng))); }
+            }
+            2 => {
+                if hs.iter().any(|h| h.0.eq_ignore_ascii_case("cookie")) { continue; }
+                let mut crumbs: Vec<String> = Vec::new();
+                for _ in 0..rng.below(4) { k += 1; crumbs.push(format!("{}=q{id}-{k}", rng.pick(&["a", "b", "sess", "A"]))); }
+                if rng.below(2) == 0 {
+                    let val = if rng.below(3) == 0 { "bogus".to_string() } else { sticky_id(cluster, rng.below(nback as u64) as usize) };
+                    let pos = rng.below(crumbs.len() as u64 + 1) as usize;
+                    crumbs.insert(pos, format!("{}={}", o.sticky_name(), val));
+                }
+                if rng.below(12) == 0 { let pos = rng.below(crumbs.len() as u64 + 1) as usize; crumbs.insert(pos, "flag".to_string()); }
+                if crumbs.is_empty() { continue; }
+                let sep = if rng.below(5) == 0 { ";" } else { "; " };
+                if crumbs.len() >= 2 && rng.below(4) == 0 {
+                    let cut = 1 + rng.below(crumbs.len() as u64 - 1) as usize;
+                    hs.push((case_variant(rng, "Cookie"), crumbs[..cut].join(sep), ows(rng)));
+                    // an unrelated header in between so the two Cookie lines are not adjacent
+                    if rng.below(2) == 0 { hs.push(("X-Mid".into(), ordinary_value(rng, id, &mut k), 0)); }
+                    hs.push((case_variant(rng, "Cookie"), crumbs[cut..].join(sep), 0));
+                } else {
+                    hs.push((case_variant(rng, "Cookie"), crumbs.join(sep), ows(rng)));
+                }
+            }
+            3 => {
+                let n = 1 + rng.below(2);
+                for _ in 0..n {
+                    let v = if rng.below(2) == 0 { spoof_ip(rng) } else { format!("{}, {}", spoof_ip(rng), spoof_ip(rng)) };
+                    hs.push((case_variant(rng, "X-Forwarded-For"), v, ows(rng)));
+                }
+            }
+            4 => {
+                let n = 1 + rng.below(2);
+                for _ in 0..n {
+                    let ip = spoof_ip(rng);
+                    let node = if ip.contains(':') { format!("\"[{ip}]:99\"") } else if rng.below(2) == 0 { ip.clone() } else { format!("\"{ip}:99\"") };
+                    let v = match rng.below(3) { 0 => format!("for={node}"), 1 => format!("for={node};proto=https;by=6.6.6.4"), _ => format!("for=6.6.6.3, for={node};by=\"[2001:db8:bad::2]\"") };
+                    hs.push((case_variant(rng, "Forwarded"), v, ows(rng)));
+                }
+            }
+            5 => {
+                if rng.below(2) == 0 && !hs.iter().any(|h| h.0.eq_ignore_ascii_case("x-forwarded-proto")) { hs.push((case_variant(rng, "X-Forwarded-Proto"), rng.pick(&["https", "http", "HTTPS"]).to_string(), ows(rng))); }
+                if rng.below(2) == 0 && !hs.iter().any(|h| h.0.eq_ignore_ascii_case("x-forwarded-port")) { hs.push((case_variant(rng, "X-Forwarded-Port"), rng.pick(&["443", "8443", "80"]).to_string(), ows(rng))); }
+            }
+            6 => {
+                for _ in 0..1 + rng.below(2) { hs.push((case_variant(rng, "X-Real-IP"), spoof_ip(rng), ows(rng))); }
+            }
+            7 => {
+                for _ in 0..1 + (rng.below(4) == 0) as u64 { k += 1; hs.push((case_variant(rng, "X-Request-Id"), format!("rid-q{id}-{k}"), ows(rng))); }
+            }
+            8 => {
+                k += 1;
+                hs.push((case_variant(rng, o.corr()), format!("01SPOOFq{id}-{k}"), ows(rng)));
+                if o.sozu_id_header.is_some() && !o.corr().eq_ignore_ascii_case(DEFAULT_CORR) && rng.below(2) == 0 { k += 1; hs.push((DEFAULT_CORR.to_string(), format!("01OLDNAMEq{id}-{k}"), 0)); }
+            }
+            _ => {
+                if hs.iter().any(|h| h.0.eq_ignore_ascii_case("connection")) { continue; }
+                match rng.below(7) {
+                    0 => hs.push(("Connection".into(), "keep-alive".into(), ows(rng))),
+                    1 => { hs.push(("Connection".into(), "keep-alive".into(), 0)); hs.push(("Keep-Alive".into(), "timeout=5, max=100".into(), ows(rng))); }
+                    2 => hs.push(("Proxy-Connection".into(), "keep-alive".into(), ows(rng))),
+                    3 => hs.push(("Upgrade".into(), "foo/2".into(), ows(rng))),
+                    4 => { hs.push((case_variant(rng, "TE"), rng.pick(&["trailers", "gzip"]).to_string(), 0)); hs.push(("Connection".into(), "TE".into(), 0)); }
+                    5 => {
+                        // a custom connection option naming another field of this request
+                        k += 1;
+                        hs.push(("X-Hop".into(), format!("q{id}-{k}"), 0));
+                        hs.push(("Connection".into(), rng.pick(&["X-Hop", "keep-alive, x-hop", "x-hop, x-nonexistent"]).to_string(), ows(rng)));
+                    }
+                    _ => { if last_of_sequential { hs.push((case_variant(rng, "Connection"), rng.pick(&["close", "Close"]).to_string(), ows(rng))); } }
+                }
+            }
+        }
+    }
+    if rng.below(3) != 0 { rng.shuffle(&mut hs); }
+    // framing: every request carries Content-Length or Transfer-Encoding (see known finding F3)
+    let body = match rng.below(24) { 0 => 16384 + rng.below(20) as usize, 1 => rng.below(max_body as u64 + 1) as usize, 2..=9 => rng.below(300) as usize, _ => 0 };
+    let chunked = body > 0 && rng.below(3) == 0 || rng.below(10) == 0;
+    let method = if body > 0 || chunked { rng.pick(&["POST", "PUT"]).to_string() } else { rng.pick(&["GET", "GET", "DELETE", "POST"]).to_string() };
+    let mut chunks = None;
+    let mut trailers = Vec::new();
+    let framing: Hdr = if chunked {
+        chunks = Some(random_chunks(rng, body));
+        if rng.below(2) == 0 {
+            for _ in 0..1 + rng.below(2) {
+                k += 1;
+                let t = match rng.below(6) {
+                    0 => ("X-Real-IP".to_string(), spoof_ip(rng)),
+                    1 => ("X-Forwarded-For".to_string(), spoof_ip(rng)),
+                    2 => (o.corr().to_string(), format!("01TRAILERq{id}-{k}")),
+                    3 => ("X-Request-Id".to_string(), format!("rid-t-q{id}-{k}")),
+                    4 => ("Forwarded".to_string(), format!("for={}", rng.pick(SPOOF4))),
+                    _ => ("X-Checksum".to_string(), format!("q{id}-{k}")),
+                };
+                if !trailers.iter().any(|(n, _): &(String, String)| n.eq_ignore_ascii_case(&t.0)) { trailers.push(t); }
+            }
+        }
+        ("Transfer-Encoding".into(), "chunked".into(), 0)
+    } else {
+        ("Content-Length".into(), body.to_string(), 0)
+    };
+    let pos = rng.below(hs.len() as u64 + 1) as usize;
+    hs.insert(pos, framing);
+    let pos = rng.below(hs.len() as u64 + 1) as usize;
+    hs.insert(pos, ("x-sim-id".into(), id.to_string(), 0));
+    let pos = if rng.below(4) == 0 { rng.below(hs.len() as u64 + 1) as usize } else { 0 };
+    hs.insert(pos, (if rng.below(6) == 0 { "host".to_string() } else { "Host".to_string() }, format!("c{cluster}.test"), 0));
+    CReq { id, method, path: format!("/r/{id}?x=q{id}-0"), cluster, headers: hs, body, chunks, trailers }
+}
+
+fn gen_response(rng: &mut Prng, id: u64, max_body: usize) -> CResp {
+    let status = *rng.pick(&[200u16, 200, 200, 200, 201, 404, 500, 204, 304]);
+    let mut hs: Vec<(String, String)> = Vec::new();
+    let mut k = 0;
+    for _ in 0..rng.below(5) {
+        k += 1;
+        let m = format!("r{id}-{k}");
+        match rng.below(10) {
+            0 => hs.push(("Server".into(), m)),
+            1 => { for n in ["X-Resp", "x-resp", "X-RESP"].iter().take(2 + rng.below(2) as usize) { k += 1; hs.push((n.to_string(), format!("r{id}-{k}"))); } }
+            2 => { hs.push(("Set-Cookie".into(), format!("a={m}; Path=/; HttpOnly"))); if rng.below(2) == 0 { k += 1; hs.push(("Set-Cookie".into(), format!("b=r{id}-{k}"))); } }
+            3 => hs.push(("Cache-Control".into(), "no-cache, private".into())),
+            4 => hs.push(("Content-Type".into(), "text/plain; charset=utf-8".into())),
+            5 => hs.push(("Strict-Transport-Security".into(), "max-age=5".into())),
+            6 => { hs.push(("Connection".into(), "keep-alive".into())); hs.push(("Keep-Alive".into(), "timeout=5".into())); }
+            7 => hs.push(("X-Request-Id".into(), m)),
+            8 => hs.push(("X-App".into(), m)),
+            _ => hs.push(("X-Edit".into(), m)),
+        }
+    }
+    if rng.below(3) != 0 { rng.shuffle(&mut hs); }
+    let mut body = match rng.below(24) { 0 => 16384 + rng.below(20) as usize, 1 => rng.below(max_body as u64 + 1) as usize, 2..=5 => 0, _ => rng.below(400) as usize };
+    let mut chunks = None;
+    if status == 204 || status == 304 {
+        body = 0;
+    } else if rng.below(3) == 0 {
+        chunks = Some(random_chunks(rng, body));
+        let pos = rng.below(hs.len() as u64 + 1) as usize;
+        hs.insert(pos, ("Transfer-Encoding".into(), "chunked".into()));
+    } else {
+        let pos = rng.below(hs.len() as u64 + 1) as usize;
+        hs.insert(pos, ("Content-Length".into(), body.to_string()));
+    }
+    let pos = rng.below(hs.len() as u64 + 1) as usize;
+    hs.insert(pos, ("x-sim-id".into(), id.to_string()));
+    CResp { status, headers: hs, body, chunks }
+}
+
+pub fn generate(seed: u64, tier: Tier) -> Plan {
+    let mut rng = Prng::derive(seed, "c13/plan");
+    let faulty = rng.below(3) == 0;
+    let mut knobs = Knobs::default();
+    knobs.buffer_size = *rng.pick(&[16393u64, 16393, 32768]);
+    let max_body = match tier { Tier::Quick => 20_000, Tier::Thorough => 60_000 };
+    let front: SocketAddr = rng.pick(&["10.0.0.1:80", "10.0.0.1:8080", "[2001:db8:f::1]:8080"]).parse().unwrap();
+    let nclusters = 1 + rng.below(2) as usize;
+    let mut o = Opts::default();
+    o.elide_x_real_ip = rng.below(2) == 0;
+    o.send_x_real_ip = rng.below(2) == 0;
+    if rng.below(3) == 0 { o.sozu_id_header = Some(rng.pick(&["X-Edge-Id", "x-request-trace", "Sozu-Id"]).to_string()); }
+    if rng.below(3) == 0 { o.sticky_name = Some(rng.pick(&["SID", "sticky-c"]).to_string()); }
+    if rng.below(3) == 0 { o.public_address = Some(rng.pick(&["203.0.113.10:443", "[2001:db8:a::10]:8443"]).parse().unwrap()); }
+    o.expect_proxy = rng.below(4) == 0;
+    let mut nback = Vec::new();
+    for _ in 0..nclusters {
+        o.sticky.push(rng.below(2) == 0);
+        nback.push(1 + (rng.below(3) == 0) as usize);
+        let mut edits: Vec<Edit> = Vec::new();
+        if rng.below(3) == 0 {
+            for _ in 0..1 + rng.below(2) {
+                let key = rng.pick(&["X-Edit", "X-App", "X-Resp", "X-Added"]).to_string();
+                if edits.iter().any(|e| e.key.eq_ignore_ascii_case(&key)) { continue; }
+                edits.push(Edit { pos: 1 + rng.below(3) as u8, key, val: rng.pick(&["", "e1", "edit value"]).to_string() });
+            }
+        }
+        o.edits.push(edits);
+    }
+    // swarm: the header categories enabled for this plan (always >= 2)
+    let mut cats: Vec<u8> = (0..10u8).filter(|_| rng.below(2) == 0).collect();
+    while cats.len() < 2 { cats.push(rng.below(10) as u8); }
+    let nclients = 2 + rng.below(3) as usize;
+    let mut clients = Vec::new();
+    let mut hclients = Vec::new();
+    let mut resps = BTreeMap::new();
+    let mut next_id = 1u64;
+    let mut hint = vec![0usize; nclusters];
+    for ci in 0..nclients {
+        // client 0 is IPv4, client 1 IPv6, the others either
+        let v6 = match ci { 0 => false, 1 => true, _ => rng.below(2) == 0 };
+        let real: SocketAddr = if v6 { format!("[2001:db8:0:{}::{}]:{}", 1 + ci, 10 + ci, 50001 + ci) } else { format!("192.0.2.{}:{}", 7 + ci, 40001 + ci) }.parse().unwrap();
+        let (src, truth, proxy_dst): (SocketAddr, SocketAddr, Option<SocketAddr>) = if o.expect_proxy {
+            // the socket peer is a load balancer; the PROXY-v2 source is the address to report
+            let lb: SocketAddr = format!("10.9.9.{}:{}", 1 + ci, 30001 + ci).parse().unwrap();
+            let dst: SocketAddr = if v6 { "[2001:db8:d::5]:4443" } else { "198.51.100.5:4443" }.parse().unwrap();
+            (lb, real, Some(dst))
+        } else { (real, real, None) };
+        let pipeline = rng.below(4) == 0;
+        let nreq = 1 + rng.below(4) as usize;
+        let home = rng.below(nclusters as u64) as usize;
+        let mut reqs = Vec::new();
+        let mut chint = 0;
+        for ri in 0..nreq {
+            let id = next_id; next_id += 1;
+            let cluster = if rng.below(5) == 0 { rng.below(nclusters as u64) as usize } else { home };
+            let r = gen_request(&mut rng, id, cluster, &o, nback[cluster], &cats, !pipeline && ri + 1 == nreq, max_body);
+            let resp = gen_response(&mut rng, id, max_body);
+            chint += r.body + resp.body + 800;
+            hint[cluster] += r.body + resp.body + 800;
+            resps.insert(id, resp);
+            reqs.push(r);
+        }
+        hclients.push(ClientPlan {
+            name: format!("cl{ci}"), src, dst: front, start_ns: (1 + rng.below(3)) * MS, pace: Pace::random_budget(&mut rng, chint, 300_000_000), pipeline,
+            requests: vec![], abort: None, sndbuf: if rng.below(4) == 0 { Some(*rng.pick(&[4608, 9216])) } else { None },
+            think_ns: rng.below(2) * rng.below(3 * MS), linger_ns: 0, give_up_ns: 0, wait_board: None,
+        });
+        clients.push(CClient { truth, proxy_dst, reqs });
+    }
+    let mut clusters = Vec::new();
+    for cl in 0..nclusters {
+        let mut backends = Vec::new();
+        for bi in 0..nback[cl] {
+            let b = BackendPlan {
+                name: format!("b{cl}-{bi}"), addr: format!("10.1.{cl}.{}:8000", bi + 1).parse().unwrap(), pace: Pace::random_budget(&mut rng, hint[cl], 300_000_000),
+                responses: BTreeMap::new(), default: RespSpec::ok(BodySpec::Cl(3)), close_on_accept: vec![], listen_from_ns: 0, listen_until_ns: 0,
+            };
+            backends.push((b, BackendMode::Listen { delay_ns: rng.below(2) * rng.below(5 * MS) }));
+        }
+        clusters.push(ClusterPlan { id: format!("c{cl}"), host: format!("c{cl}.test"), backends });
+    }
+    let fam = format!("h1h1{}{}{}{}", if o.expect_proxy { "+proxy_v2" } else { "" }, if o.sticky.iter().any(|s| *s) { "+sticky" } else { "" }, if o.edits.iter().any(|e| !e.is_empty()) { "+edits" } else { "" }, if faulty { "+buggify" } else { "" });
+    let http = HttpPlan {
+        seed, family: fam, knobs, sched: netsim::default_sched(&mut rng, faulty), front, clusters, clients: hclients,
+        sndbufs: if rng.below(3) == 0 { Some(vec![0, 4608, 9216, 32768]) } else { None }, settle_ns: 0, extra_frontends: vec![],
+    };
+    Plan { http, opts: o, clients, resps }
+}
+
+/// Systematic plans: one client, one small request whose fields make kawa's output queue reference the
+/// read buffer out of order (Host not first / two Cookie lines / rewritten X-Forwarded-For), with *every*
+/// write of the worker cut short at a seeded offset, i.e. back-pressure inside the forwarded header block.
+pub fn enumerated_plan(shape: u8, k: u64) -> Plan {
+    let seed = 0xC13_0000 + (shape as u64) * 1000 + k;
+    let mut rng = Prng::derive(seed, "c13/enum");
+    let front: SocketAddr = "10.0.0.1:8080".parse().unwrap();
+    let truth: SocketAddr = if k % 2 == 0 { "192.0.2.7:40001" } else { "[2001:db8:0:2::11]:50002" }.parse().unwrap();
+    let id = 1u64;
+    let mut hs: Vec<Hdr> = vec![("x-sim-id".into(), "1".into(), 0), ("Content-Length".into(), "0".into(), 0)];
+    match shape {
+        0 => { hs.push(("X-App".into(), "q1-1".into(), 0)); hs.push(("X-Forwarded-For".into(), "6.6.6.2, 6.6.6.1".into(), 0)); hs.push(("Host".into(), "c0.test".into(), 0)); }
+        1 => { hs.insert(0, ("Host".into(), "c0.test".into(), 0)); hs.push(("Cookie".into(), "a=q1-1".into(), 0)); hs.push(("X-Mid".into(), "q1-2".into(), 0)); hs.push(("X-Request-Id".into(), "rid-q1-3".into(), 0)); hs.push(("Cookie".into(), "b=q1-4; sess=q1-5".into(), 0)); }
+        _ => { hs.insert(0, ("Host".into(), "c0.test".into(), 0)); hs.push(("X-Forwarded-For".into(), "6.6.6.2".into(), 0)); hs.push(("Forwarded".into(), "for=6.6.6.3".into(), 0)); hs.push(("X-App".into(), "q1-1".into(), 0)); }
+    }
+    let req = CReq { id, method: "GET".into(), path: "/r/1?x=q1-0".into(), cluster: 0, headers: hs, body: 0, chunks: None, trailers: vec![] };
+    let mut resps = BTreeMap::new();
+    resps.insert(id, CResp { status: 200, headers: vec![("x-sim-id".into(), "1".into()), ("Content-Length".into(), "5".into()), ("X-Resp".into(), "r1-1".into())], body: 5, chunks: None });
+    let mut sched = crate::world::SchedCfg::default();
+    sched.short_write_pm = 1000;
+    sched.actor_burst = *rng.pick(&[1u32, 2, 4]);
+    let b = BackendPlan { name: "b0-0".into(), addr: "10.1.0.1:8000".parse().unwrap(), pace: Pace::greedy(), responses: BTreeMap::new(), default: RespSpec::ok(BodySpec::Cl(3)), close_on_accept: vec![], listen_from_ns: 0, listen_until_ns: 0 };
+    let http = HttpPlan {
+        seed, family: format!("h1h1_enum_short_writes_shape{shape}"), knobs: Knobs::default(), sched, front,
+        clusters: vec![ClusterPlan { id: "c0".into(), host: "c0.test".into(), backends: vec![(b, BackendMode::Listen { delay_ns: 0 })] }],
+        clients: vec![ClientPlan { name: "cl0".into(), src: truth, dst: front, start_ns: MS, pace: Pace::greedy(), pipeline: false, requests: vec![], abort: None, sndbuf: None, think_ns: 0, linger_ns: 0, give_up_ns: 0, wait_board: None }],
+        sndbufs: None, settle_ns: 0, extra_frontends: vec![],
+    };
+    Plan { http, opts: Opts { sticky: vec![false], edits: vec![vec![]], ..Default::default() }, clients: vec![CClient { truth, proxy_dst: None, reqs: vec![req] }], resps }
+}
+
+// ------------------------------------------------------------------------------------ oracle glue
+
+fn truth_of(p: &Plan, ci: usize) -> Truth {
+    let c = &p.clients[ci];
+    let listener = p.opts.public_address.unwrap_or(p.http.front);
+    // which address the proxy is reached at: the configured public address (or the listening address);
+    // behind PROXY-v2 the documentation is silent on whether the PROXY destination replaces it: both accepted
+    let mut by = vec![listener];
+    if p.opts.expect_proxy { if let Some(d) = c.proxy_dst { by.push(d); } }
+    Truth { peer: c.truth, by, proto: "http" }
+}
+
+/// plan-level trigger of a request for violations that are not about one header
+fn others(p: &Plan, ci: usize, id: u64) -> Vec<model::Foreign> {
+    // what must never show up on this request / response: markers and addresses of other requests
+    let mut v = Vec::new();
+    for (cj, c) in p.clients.iter().enumerate() {
+        for r in &c.reqs {
+            if r.id == id { continue; }
+            v.push(model::Foreign { needle: format!("q{}-", r.id), what: "request_marker", same_client: cj == ci });
+            v.push(model::Foreign { needle: format!("r{}-", r.id), what: "response_marker", same_client: cj == ci });
+        }
+        if cj != ci {
+            v.push(model::Foreign { needle: c.truth.ip().to_string(), what: "peer_address", same_client: false });
+            let src = p.http.clients[cj].src.ip().to_string();
+            if src != c.truth.ip().to_string() { v.push(model::Foreign { needle: src, what: "lb_address", same_client: false }); }
+        }
+    }
+    v
+}
+
+pub fn oracle(p: &Plan, h: &HttpPlan, o: &HttpOutcome, probes: &mut BTreeMap<String, u64>) -> Vec<Violation> {
+    let mut v = Vec::new();
+    let mut probe = |k: &str, n: u64| { *probes.entry(k.to_string()).or_insert(0) += n; };
+    if let Some(pn) = &o.panicked {
+        // key: the panic message without its numbers + the plan-level feature that makes kawa's out queue non-monotonic
+        let norm: String = pn.chars().map(|c| if c.is_ascii_digit() { 'N' } else if c == ' ' { '_' } else { c }).collect::<String>().replace("NNNNNNNNNN", "N").replace("NNNNN", "N");
+        let ooo = p.clients.iter().flat_map(|c| c.reqs.iter()).any(|r| r.headers.first().map_or(true, |h| !h.0.eq_ignore_ascii_case("host")) || r.headers.iter().filter(|h| h.0.eq_ignore_ascii_case("cookie")).count() > 1);
+        v.push(Violation::new("panic", format!("{}|{}", norm.chars().take(60).collect::<String>(), if ooo { "host_not_first_or_two_cookie_lines" } else { "fields_in_order" }), format!("worker panicked: {pn}")));
+    }
+    let worker_died = o.panicked.is_some() || o.aborted.is_some();
+    if let Some(a) = &o.aborted { v.push(Violation::new("no_exit", a.clone(), format!("run aborted: {a}"))); }
+    // (client, request index, request id, proxy correlation id, generated X-Request-Id) as seen by backends
+    let mut ids: Vec<(usize, usize, u64, Option<String>, Option<String>)> = Vec::new();
+    for (ci, c) in p.clients.iter().enumerate() {
+        let oc = &o.clients[ci];
+        let truth = truth_of(p, ci);
+        if truth.peer.is_ipv6() { probe("clients_ipv6", 1); } else { probe("clients_ipv4", 1); }
+        // once a request on this connection was refused, what follows it is collateral
+        let mut dead = false;
+        for (ri, r) in c.reqs.iter().enumerate() {
+            let resp_spec = &p.resps[&r.id];
+            let sticky = p.opts.sticky.get(r.cluster).copied().unwrap_or(false);
+            let edits: &[Edit] = p.opts.edits.get(r.cluster).map(|e| e.as_slice()).unwrap_or(&[]);
+            let foreign = others(p, ci, r.id);
+            // ---- what the backend received
+            let mut seen: Vec<(usize, usize, &crate::actors::h1codec::Msg, bool)> = Vec::new();
+            for (bi, recs) in o.backends[r.cluster].iter().enumerate() {
+                for rec in recs {
+                    let ids: Vec<u64> = rec.requests.iter().filter_map(|q| q.sim_id).collect();
+                    for q in rec.requests.iter().chain(rec.partial.iter()) {
+                        if q.sim_id == Some(r.id) {
+                            let owners: std::collections::BTreeSet<usize> = ids.iter().filter_map(|i| p.clients.iter().position(|cc| cc.reqs.iter().any(|x| x.id == *i))).collect();
+                            seen.push((bi, rec.idx, q, owners.len() > 1));
+                        }
+                    }
+                }
+            }
+            let client_msg = oc.responses.get(ri);
+            let relayed = client_msg.filter(|m| m.sim_id == Some(r.id));
+            let feat = model::features(r, &p.opts, sticky);
+            if seen.is_empty() {
+                if dead || worker_died { probe("collateral_after_refused_request", 1); continue; }
+                if o.stats.connect_refused > 0 && client_msg.map_or(false, |m| m.status() == 503) { probe("backend_not_listening_yet_503", 1); dead = true; continue; }
+                dead = true;
+                if let Some(m) = client_msg {
+                    if m.sim_id.is_none() {
+                        v.push(Violation::new("request_not_forwarded", format!("status={}|{}", m.status(), feat), format!("client {ci} request #{}: valid request answered by the proxy itself with '{}' and never forwarded; request head: {:?}", r.id, m.start, String::from_utf8_lossy(&render_req(r)).chars().take(600).collect::<String>())));
+                    }
+                } else if !h.clients[ci].pipeline || ri == 0 {
+                    // (behind a failed pipelined request later ones are collateral)
+                    if oc.responses.len() == ri { v.push(Violation::new("request_not_forwarded", format!("status=none|{}", feat), format!("client {ci} request #{}: no response and never forwarded (eof={} err={:?} parse_error={:?})", r.id, oc.rec.eof, oc.rec.io_err, oc.rec.parse_error))); }
+                }
+                continue;
+            }
+            if seen.len() > 1 { v.push(Violation::new("request_replayed", format!("x{}|{}", seen.len(), feat), format!("request #{} reached backends {} times", r.id, seen.len()))); }
+            let (bi, conn_idx, q, shared) = seen[0];
+            probe("requests_checked", 1);
+            if shared { probe("backend_conn_shared_across_clients", 1); }
+            // correlation id on the response the client received for this request
+            let resp_corr: Option<Vec<String>> = relayed.map(|m| m.header_all(p.opts.corr()).into_iter().map(|s| s.to_string()).collect());
+            let ctx = model::ReqCtx { truth: &truth, opts: &p.opts, sticky, edits, foreign: &foreign, resp_corr: resp_corr.as_deref(), reused_conn: o.backends[r.cluster][bi].iter().find(|rec| rec.idx == conn_idx).map_or(false, |rec| rec.requests.len() > 1), shared_conn: shared };
+            if ctx.reused_conn { probe("requests_on_reused_backend_conn", 1); }
+            let got_trailers: Vec<(String, String)> = q.trailers.clone();
+            {
+                let sent_corr: Vec<&str> = r.headers.iter().filter(|h| h.0.eq_ignore_ascii_case(p.opts.corr())).map(|h| h.1.as_str()).collect();
+                let corr = q.header_all(p.opts.corr()).into_iter().filter(|x| !sent_corr.contains(x)).last().map(|s| s.to_string());
+                let rid = if r.headers.iter().any(|h| h.0.eq_ignore_ascii_case("x-request-id")) { None } else { q.header("x-request-id").map(|s| s.to_string()) };
+                ids.push((ci, ri, r.id, corr, rid));
+            }
+            let nv = model::check_request(r, &q.start, &q.headers, &got_trailers, q.complete, &ctx, &mut |k, n| probe(k, n));
+            for mut x in nv { x.detail = format!("client {ci} ({}) request #{} on backend c{}-{} conn {}: {}", truth.peer, r.id, r.cluster, bi, conn_idx, x.detail); v.push(x); }
+            // ---- what the client received
+            match relayed {
+                Some(m) => {
+                    probe("responses_checked", 1);
+                    let rctx = model::RespCtx { opts: &p.opts, sticky, edits, foreign: &foreign, serving_sticky_id: sticky_id(r.cluster, bi), req: r, after_other_sticky_cluster: c.reqs[..ri].iter().any(|x| x.cluster != r.cluster && p.opts.sticky.get(x.cluster).copied().unwrap_or(false)) };
+                    let nv = model::check_response(resp_spec, m, &rctx, &mut |k, n| probe(k, n));
+                    for mut x in nv { x.detail = format!("client {ci} request #{}: {}", r.id, x.detail); v.push(x); }
+                }
+                None => {
+                    // the C01/C02 oracles own missing / proxy-made answers; record reach only
+                    probe("responses_missing_or_proxy_made", 1);
+                }
+            }
+        }
+    }
+    // "Each request gets a unique ULID" (doc/configure.md, sozu_id_header): ids identify one request
+    for (k, (ci, ri, id, corr, rid)) in ids.iter().enumerate() {
+        for (what, val) in [("correlation", corr), ("x-request-id", rid)] {
+            let Some(val) = val else { continue };
+            let field = |x: &(usize, usize, u64, Option<String>, Option<String>)| if what == "correlation" { x.3.clone() } else { x.4.clone() };
+            if let Some(prev) = ids[..k].iter().find(|x| field(x).as_deref() == Some(val.as_str())) {
+                let scope = if prev.0 == *ci { "later_request_of_keep_alive_connection" } else { "other_connection" };
+                v.push(Violation::new("id_not_unique", format!("{what}|{scope}"), format!("client {ci} request #{id} (#{} on its connection) carries the proxy-generated {what} {val:?}, the same as request #{} of client {}", ri + 1, prev.2, prev.0)));
+            } else { probe("ids_unique", 1); }
+        }
+    }
+    v
+}
+
+pub fn summarize(p: &Plan) -> String {
+    let o = &p.opts;
+    let mut s = format!("{} front={} elide={} send={} corr={:?} sticky_name={:?} public={:?} proxy_v2={} sticky={:?} edits={:?} ", p.http.family, p.http.front, o.elide_x_real_ip, o.send_x_real_ip, o.sozu_id_header, o.sticky_name, o.public_address, o.expect_proxy, o.sticky, o.edits.iter().map(|e| e.iter().map(|x| format!("{}:{}={:?}", x.pos, x.key, x.val)).collect::<Vec<_>>()).collect::<Vec<_>>());
+    for (i, c) in p.clients.iter().enumerate() {
+        s += &format!("[{}{} ", c.truth, if p.http.clients[i].pipeline { " pipelined" } else { "" });
+        for r in &c.reqs {
+            let names: Vec<&str> = r.headers.iter().map(|h| h.0.as_str()).filter(|n| !["host", "x-sim-id", "content-length", "transfer-encoding"].contains(&n.to_ascii_lowercase().as_str())).collect();
+            s += &format!("#{}->c{} {} {{{}}}{} ", r.id, r.cluster, r.method, names.join(","), if r.trailers.is_empty() { String::new() } else { format!(" trailers{{{}}}", r.trailers.iter().map(|t| t.0.as_str()).collect::<Vec<_>>().join(",")) });
+        }
+        s += "] ";
+    }
+    s.chars().take(900).collect()
+}
+
+fn shrink_plan(p: &Plan) -> Vec<Plan> {
+    let mut out: Vec<Plan> = Vec::new();
+    // drop a client
+    if p.clients.len() > 1 {
+        for i in 0..p.clients.len() { let mut q = p.clone(); q.clients.remove(i); q.http.clients.remove(i); out.push(q); }
+    }
+    // drop a request
+    for i in 0..p.clients.len() {
+        if p.clients[i].reqs.len() > 1 {
+            for j in 0..p.clients[i].reqs.len() { let mut q = p.clone(); let r = q.clients[i].reqs.remove(j); q.resps.remove(&r.id); out.push(q); }
+        }
+    }
+    // options back to defaults, one at a time
+    let d = Opts { sticky: vec![false; p.opts.sticky.len()], edits: vec![vec![]; p.opts.edits.len()], ..Default::default() };
+    macro_rules! reset { ($f:ident) => { if p.opts.$f != d.$f { let mut q = p.clone(); q.opts.$f = d.$f.clone(); out.push(q); } }; }
+    reset!(edits); reset!(sticky); reset!(public_address); reset!(sozu_id_header); reset!(sticky_name); reset!(elide_x_real_ip); reset!(send_x_real_ip);
+    if p.opts.expect_proxy {
+        let mut q = p.clone();
+        q.opts.expect_proxy = false;
+        for (i, c) in q.clients.iter_mut().enumerate() { c.proxy_dst = None; q.http.clients[i].src = c.truth; }
+        out.push(q);
+    }
+    for (ci, es) in p.opts.edits.iter().enumerate() { if es.len() > 1 { for k in 0..es.len() { let mut q = p.clone(); q.opts.edits[ci].remove(k); out.push(q); } } }
+    // drop one header / trailer of one request; simplify whitespace; shrink bodies
+    for i in 0..p.clients.len() {
+        for j in 0..p.clients[i].reqs.len() {
+            let r = &p.clients[i].reqs[j];
+            for k in 0..r.headers.len() {
+                let n = r.headers[k].0.to_ascii_lowercase();
+                if ["host", "x-sim-id", "content-length", "transfer-encoding"].contains(&n.as_str()) { continue; }
+                let mut q = p.clone(); q.clients[i].reqs[j].headers.remove(k); out.push(q);
+            }
+            for k in 0..r.trailers.len() { let mut q = p.clone(); q.clients[i].reqs[j].trailers.remove(k); out.push(q); }
+            if r.headers.iter().any(|h| h.2 != 0) { let mut q = p.clone(); for h in q.clients[i].reqs[j].headers.iter_mut() { h.2 = 0; } out.push(q); }
+            if r.chunks.is_some() && r.trailers.is_empty() {
+                let mut q = p.clone();
+                let rr = &mut q.clients[i].reqs[j];
+                rr.chunks = None;
+                for h in rr.headers.iter_mut() { if h.0.eq_ignore_ascii_case("transfer-encoding") { *h = ("Content-Length".into(), rr.body.to_string(), 0); } }
+                out.push(q);
+            }
+            if r.body > 8 {
+                let mut q = p.clone();
+                let rr = &mut q.clients[i].reqs[j];
+                rr.body = 8;
+                if rr.chunks.is_some() { rr.chunks = Some(vec![8]); }
+                for h in rr.headers.iter_mut() { if h.0.eq_ignore_ascii_case("content-length") { h.1 = "8".into(); } }
+                out.push(q);
+            }
+            if let Some(resp) = p.resps.get(&r.id) {
+                for k in 0..resp.headers.len() {
+                    let n = resp.headers[k].0.to_ascii_lowercase();
+                    if ["x-sim-id", "content-length", "transfer-encoding"].contains(&n.as_str()) { continue; }
+                    let mut q = p.clone(); q.resps.get_mut(&r.id).unwrap().headers.remove(k); out.push(q);
+                }
+                if resp.body > 8 {
+                    let mut q = p.clone();
+                    let rr = q.resps.get_mut(&r.id).unwrap();
+                    rr.body = 8;
+                    if rr.chunks.is_some() { rr.chunks = Some(vec![8]); }
+                    for h in rr.headers.iter_mut() { if h.0.eq_ignore_ascii_case("content-length") { h.1 = "8".into(); } }
+                    out.push(q);
+                }
+            }
+        }
+    }
+    // scheduler / pacing simplifications
+    let mut q = p.clone();
+    q.http.sched.ev_truncate_pm = 0; q.http.sched.ev_permute_pm = 0; q.http.sched.preempt_pm = 0; q.http.sched.short_write_pm = 0; q.http.sched.eagain_pm = 0; q.http.sndbufs = None;
+    if serde_json::to_string(&q.http.sched).unwrap() != serde_json::to_string(&p.http.sched).unwrap() || p.http.sndbufs.is_some() { out.push(q); }
+    for i in 0..p.http.clients.len() {
+        let c = &p.http.clients[i];
+        if !c.pace.is_greedy() || c.pipeline || c.sndbuf.is_some() || c.think_ns > 0 || c.start_ns != MS {
+            let mut q = p.clone();
+            let cc = &mut q.http.clients[i];
+            cc.pace = Pace::greedy(); cc.pipeline = false; cc.sndbuf = None; cc.think_ns = 0; cc.start_ns = MS;
+            out.push(q);
+        }
+    }
+    for i in 0..p.http.clusters.len() {
+        if p.http.clusters[i].backends.len() > 1 && !p.clients.iter().any(|c| c.reqs.iter().any(|r| r.headers.iter().any(|h| h.1.contains(&sticky_id(i, 1))))) {
+            let mut q = p.clone(); q.http.clusters[i].backends.truncate(1); out.push(q);
+        }
+        for j in 0..p.http.clusters[i].backends.len() {
+            if !p.http.clusters[i].backends[j].0.pace.is_greedy() { let mut q = p.clone(); q.http.clusters[i].backends[j].0.pace = Pace::greedy(); out.push(q); }
+        }
+    }
+    if p.http.knobs.buffer_size != 16393 { let mut q = p.clone(); q.http.knobs.buffer_size = 16393; out.push(q); }
+    out
+}
+
 impl Property for C13 {
     fn id(&self) -> &'static str { "C13" }
-    fn runs(&self, _tier: Tier) -> u64 { 0 }
-    fn gen_plan(&self, _seed: u64, _tier: Tier) -> Value { Value::Null }
-    fn run_plan(&self, _plan: &Value) -> RunReport { RunReport { harness_error: Some("not implemented".into()), ..Default::default() } }
-    fn descr(&self) -> Descr { Descr { level: "exploration", rule: "", assumptions: vec![], real: vec![], stub: vec![], not_covered: vec![] } }
+    fn runs(&self, tier: Tier) -> u64 { match tier { Tier::Quick => 6_000, Tier::Thorough => 150_000 } }
+    fn gen_plan(&self, seed: u64, tier: Tier) -> Value { serde_json::to_value(generate(seed, tier)).unwrap() }
+    fn enumerated(&self, tier: Tier) -> Vec<Value> {
+        let n = match tier { Tier::Quick => 120, Tier::Thorough => 600 };
+        let mut v = Vec::new();
+        for shape in 0..3u8 { for k in 0..n { v.push(serde_json::to_value(enumerated_plan(shape, k)).unwrap()); } }
+        v
+    }
+    fn run_plan(&self, plan: &Value) -> RunReport {
+        let p: Plan = match serde_json::from_value(plan.clone()) { Ok(p) => p, Err(e) => return RunReport { harness_error: Some(format!("bad plan: {e}")), ..Default::default() } };
+        if p.clients.len() != p.http.clients.len() { return RunReport { harness_error: Some("bad plan: client lists differ".into()), ..Default::default() }; }
+        let (h, o) = run(&p, false);
+        let mut probes = BTreeMap::new();
+        let violations = oracle(&p, &h, &o, &mut probes);
+        // fingerprint: the scheduler trace plus every header section observed by any party
+        let mut th = TraceHash(o.trace_hash, 0);
+        for cl in &o.backends { for b in cl { for rec in b { for q in rec.requests.iter().chain(rec.partial.iter()) { th.mix_bytes(&q.raw_head); for t in &q.trailers { th.mix_bytes(t.0.as_bytes()); th.mix_bytes(t.1.as_bytes()); } } } } }
+        for c in &o.clients { for m in c.responses.iter().chain(c.partial.iter()) { th.mix_bytes(&m.raw_head); } }
+        let mut rep = RunReport { seed: p.http.seed, family: p.http.family.clone(), violations, trace_hash: th.0, stats: o.stats.clone(), summary: summarize(&p), ..Default::default() };
+        rep.nontrivial = probes.get("requests_checked").copied().unwrap_or(0) > 0;
+        let op = &p.opts;
+        for (k, on) in [("plans_elide_x_real_ip", op.elide_x_real_ip), ("plans_send_x_real_ip", op.send_x_real_ip), ("plans_custom_correlation_header", op.sozu_id_header.is_some()), ("plans_custom_sticky_name", op.sticky_name.is_some()), ("plans_public_address", op.public_address.is_some()), ("plans_proxy_protocol", op.expect_proxy), ("plans_sticky_session", op.sticky.iter().any(|s| *s)), ("plans_frontend_header_edits", op.edits.iter().any(|e| !e.is_empty()))] {
+            if on { probes.insert(k.into(), 1); }
+        }
+        rep.probes = probes;
+        if let Some(e) = o.boot_error { rep.harness_error = Some(format!("worker boot failed: {e}")); }
+        if o.config_finals.values().any(|n| *n != 1) { rep.harness_error = Some("configuration command without exactly one final answer".into()); }
+        if let Some((_, bad)) = o.responses.iter().find(|(_, r)| r.status == sozu_command_lib::proto::command::ResponseStatus::Failure as i32) { rep.harness_error = Some(format!("configuration command failed: {}", bad.message)); }
+        rep
+    }
+    fn shrink(&self, plan: &Value) -> Vec<Value> {
+        let Ok(p) = serde_json::from_value::<Plan>(plan.clone()) else { return vec![] };
+        shrink_plan(&p).into_iter().map(|p| serde_json::to_value(p).unwrap()).collect()
+    }
+    fn debug_plan(&self, plan: &Value) -> String {
+        let p: Plan = serde_json::from_value(plan.clone()).unwrap();
+        let (h, o) = run(&p, std::env::var("C13_LOG").is_ok());
+        let mut s = summarize(&p) + "\n";
+        for l in o.log.iter().rev().take(std::env::var("C13_LOG").ok().and_then(|x| x.parse().ok()).unwrap_or(0)).rev() { s += l; s.push('\n'); }
+        for (i, c) in h.clients.iter().enumerate() {
+            for r in &c.requests { s += &format!("--- client {i} ({}) sends:\n{}\n", c.src, String::from_utf8_lossy(&r.raw.clone().unwrap_or_default()).chars().take(1500).collect::<String>()); }
+            for m in o.clients[i].responses.iter().chain(o.clients[i].partial.iter()) { s += &format!("--- client {i} receives (complete={}):\n{}\n", m.complete, String::from_utf8_lossy(&m.raw_head)); }
+            s += &format!("client {i}: rec={:?}\n", o.clients[i].rec);
+        }
+        for (ci, cl) in o.backends.iter().enumerate() { for (bi, b) in cl.iter().enumerate() { for rec in b { for q in rec.requests.iter().chain(rec.partial.iter()) { s += &format!("--- backend c{ci}-{bi} conn {} receives:\n{}trailers={:?}\n", rec.idx, String::from_utf8_lossy(&q.raw_head), q.trailers); } } } }
+        let mut probes = BTreeMap::new();
+        for v in oracle(&p, &h, &o, &mut probes) { s += &format!("VIOLATION {} {} :: {}\n", v.class, v.key, v.detail); }
+        s += &format!("panicked={:?} aborted={:?} boot={:?}\n", o.panicked, o.aborted, o.boot_error);
+        s
+    }
+    fn descr(&self) -> Descr {
+        Descr {
+            level: "exploration",
+            rule: "seeded plans: 2-4 keep-alive (sometimes pipelining) HTTP/1.1 clients with distinct IPv4/IPv6 addresses (direct or behind PROXY-v2), 1-4 requests each with a sampled header list (duplicates, case variants, whitespace variants, cookies incl. the sticky cookie, spoofed X-Forwarded-For/Forwarded/X-Forwarded-Proto/Port/X-Real-IP/X-Request-Id/correlation header, connection-specific fields, chunked trailers carrying identity fields), listener knobs (elide/send X-Real-IP, correlation header name, sticky name, public address, expect_proxy), cluster sticky_session, per-frontend header edits; every request a backend received and every relayed response is compared with an independent model of the documented transformation; non-trivial = >=1 backend-received request compared; distinct = distinct hashes of scheduler trace + all observed header sections",
+            assumptions: vec!["AF_UNIX stands in for TCP; IPv4 and IPv6 clients reach the same simulated listener", "release semantics", "where the documentation is silent a transformation is accepted only if an RFC 9110 recipient cannot see a difference (Host moved to the first field, Cookie lines merged with '; ', optional whitespace normalised, empty Cookie line after sticky elision, request trailers dropped)", "PROXY-v2: both the configured public address and the PROXY destination are accepted as the proxy's own address"],
+            real: vec!["sozu_lib::server::Server::run (HTTP listener, PROXY-v2 expect state, mux H1, kawa parser + H1 converter, kawa_h1::editor callbacks, router header edits, sticky sessions)", "sozu_command_lib Channel/ConfigState", "mio", "Linux epoll + AF_UNIX"],
+            stub: vec!["IP network (AF_UNIX pairs + address translation: peer_addr() returns the simulated client address)", "clock", "entropy (ULIDs are seeded)", "clients", "backends", "master process (scripted)"],
+            not_covered: vec!["HTTPS front, HTTP/2 on either side (H2 tier)", "HSTS (rejected on plaintext listeners, RFC 6797 7.2)", "frontend edits of identity headers (X-Forwarded-*) and host/path rewrites", "malformed Forwarded/X-Forwarded-For values (unbalanced quotes, empty elements), obs-fold, non-ASCII header values", "backend responses that themselves carry the correlation header name", "close-delimited responses, backend 'Connection: close', lengthless requests (known findings F1-F3)", "response trailers, 1xx/101 upgrades", "cross-client isolation over a *shared* backend connection: sozu gives every HTTP/1.1 client connection its own backend connections (probe backend_conn_shared_across_clients stays 0), so reuse is only exercised across the requests of one client; foreign markers/addresses are still searched for on every request and response"],
+        }
+    }
 }
